@@ -81,6 +81,10 @@ def _serialize_element(
             for name, prop in schema["properties"].items()
             if prop.required
         ]
+        schema["properties"] = {
+            prop.source or name: prop
+            for name, prop in schema["properties"].items()
+        }
     if not schema.get("required", True):
         del schema["required"]
     if isinstance(element, CompositionElement):
